@@ -126,3 +126,10 @@ Lemma ex_r_rssimple : rssimple ex_r.
 Proof. simpl. tauto. Qed.
 Lemma ex_scan_rssimple : rssimple ex_scan /\ wfg ex_scan.
 Proof. simpl. unfold heads_ok. simpl. repeat split; try (repeat constructor; simpl; intuition congruence); try (intros E; discriminate). Qed.
+
+(* mix over two components; index distribution probe 0 with parameter 0 draws an index in 0..3 (clamped by the switch) *)
+Definition ex_mix : gf := g_mix 0 (GCons (GDist 1) (GCons ex_kernel GNil)).
+Definition ex_mix_a : list val := [VZ 0; VT [VZ 4]; VT [VZ 2; VZ 3]].
+Lemma ex_mix_wft : let t := tr_of ex_mix ex_mix_a in
+  wft ex_mix t /\ length (t_args t) = S (gfs_len (GCons (GDist 1) (GCons ex_kernel GNil))) /\ length (t_choices t) = 2%nat.
+Proof. split; [apply (sim_wft _ ex_k ex_mix_a); vm_compute; reflexivity | split; vm_compute; reflexivity]. Qed.
